@@ -111,6 +111,7 @@ func runC16(c *Ctx) {
 	r.Require("paired_requests", 10000)
 	r.Require("fallback_requests", 2000)
 	r.Require("slash_variants", 1000)
+	r.Require("nested_base_requests", 5000)
 	r.Require("op_complete", 50)
 	r.Assume("the three servers run on twin backends built with the same fixed time source and version seed; request ids, x-amz-id-2, the Location element of CompleteMultipartUploadResult and the LastModified of CopyObjectResult (wall clock) are masked",
 		"a Host with a port when the base was configured without one is not '<label>.<base>' and is only required to fall back to path-style; bucket names contain no dots")
@@ -125,6 +126,16 @@ func c16Sequence(r *rep.Reporter, kind string, si int, fixed time.Time, bases []
 	P := mk(drv.Opts{})
 	H := mk(drv.Opts{HostBucket: true})
 	HB := mk(drv.Opts{HostBases: bases})
+	// nested bases, in either order: every '<label>.<base>' of every base must be honoured
+	nested := []string{"example.net", "s3.example.net", "eu.s3.example.net:8443"}
+	if si%2 == 1 {
+		nested = []string{"eu.s3.example.net:8443", "s3.example.net", "example.net"}
+	}
+	if si%3 == 2 {
+		nested = []string{"s3.example.net", "example.net", "eu.s3.example.net:8443"}
+	}
+	HBN := mk(drv.Opts{HostBases: nested})
+	defer HBN.Close()
 	defer P.Close()
 	defer H.Close()
 	defer HB.Close()
@@ -245,6 +256,14 @@ func c16Sequence(r *rep.Reporter, kind string, si int, fixed time.Time, bases []
 			report("host-style-differs", "host-bucket-base", l, pa, hba, fmt.Sprintf("path-style answers %s, host %q answers %s", pa, l.Bucket+"."+base, hba))
 			break
 		}
+		nbase := nested[rng.Intn(len(nested))]
+		hbn := HBN.Do(l.hostStyle(l.Bucket + "." + nbase))
+		r.Count("paired_requests", 1)
+		r.Count("nested_base_requests", 1)
+		if nn := normResp(hbn); nn != np {
+			report("host-style-differs", "nested-host-bucket-bases", l, pa, hbn, fmt.Sprintf("bases %v: path-style answers %s, host %q answers %s", nested, pa, l.Bucket+"."+nbase, hbn))
+			break
+		}
 		// learn ids from P's answer
 		if opname == "initiate" && pa.Status == 200 {
 			var ir drv.InitResult
@@ -294,6 +313,9 @@ func c16Sequence(r *rep.Reporter, kind string, si int, fixed time.Time, bases []
 		return
 	}
 	dp, dh, dhb := storeDump(P, buckets), storeDump(H.Front(drv.Opts{FixedTime: fixed}), buckets), storeDump(HB.Front(drv.Opts{FixedTime: fixed}), buckets)
+	if dn := storeDump(HBN.Front(drv.Opts{FixedTime: fixed}), buckets); dn != dp {
+		dhb = dn
+	}
 	if dp != dh || dp != dhb {
 		r.Violation(sig("C16", "any", "final-state-differs", ""), fmt.Sprintf("%s seq %d: the three stores differ after identical logical requests", kind, si),
 			map[string]interface{}{"path_style": dp, "host_bucket": dh, "host_bucket_base": dhb})
